@@ -1,5 +1,6 @@
 import AnyTLS.Model.Session
 import AnyTLS.Model.Auth
+import AnyTLS.Model.Sha256
 import AnyTLS.Drv.Frame
 
 namespace AnyTLS.Drv
@@ -217,6 +218,9 @@ def authOp (toks : List String) : String :=
   | kind :: exp :: eof :: chunks =>
     match bytesOfHex exp, allSome (chunks.map bytesOfHex) with
     | some exp, some cs =>
+      -- kind `pw`: the field is the configured password, the server compares with its SHA-256
+      let exp := if kind == "pw" then Sha256.digest exp else exp
+      let kind := if kind == "pw" then "v" else kind
       let inp := flatten cs
       let v := authServer exp inp
       let verdict := match v with
